@@ -21,7 +21,7 @@ use passage_packets::{
 };
 use passage_packets::{Packet, WritePacket};
 use std::fmt::Debug;
-use std::io::Cursor;
+use std::io::{Cursor, ErrorKind};
 use std::net::SocketAddr;
 use std::sync::Arc;
 use std::time::{Duration, SystemTime, UNIX_EPOCH};
@@ -70,6 +70,11 @@ pub const KEEP_ALIVE_INTERVAL: u64 = 16;
 pub struct Connection<S, Stat, Disc, Filt, Stra, Auth, Loca> {
     stream: CipherStream<S, Aes128Cfb8Enc, Aes128Cfb8Dec>,
     buffer: Vec<u8>,
+    // received bytes of the next frame and pending bytes of sent frames, they are kept here (and not
+    // in the futures) such that receiving and sending can be cancelled without losing any bytes
+    read_buffer: Vec<u8>,
+    write_buffer: Vec<u8>,
+    write_offset: usize,
 
     // adapters
     status_adapter: Arc<Stat>,
@@ -119,6 +124,9 @@ where
         Self {
             stream: CipherStream::from_stream(stream),
             buffer: Vec::with_capacity(INITIAL_BUFFER_SIZE),
+            read_buffer: Vec::with_capacity(INITIAL_BUFFER_SIZE),
+            write_buffer: Vec::with_capacity(INITIAL_BUFFER_SIZE),
+            write_offset: 0,
             // adapters
             status_adapter,
             discovery_adapter,
@@ -158,13 +166,49 @@ where
         self
     }
 
+    /// Decodes the length prefix of the next frame as far as it was received. Returns the size of the
+    /// prefix and the number of bytes that are still missing for the frame to be complete.
+    fn next_frame(&self) -> Result<(usize, usize), Error> {
+        let mut length: VarInt = 0;
+        let mut prefix = 0;
+        loop {
+            let Some(byte) = self.read_buffer.get(prefix) else {
+                return Ok((prefix, 1));
+            };
+            length |= (i32::from(byte & 0b0111_1111)) << (7 * prefix);
+            prefix += 1;
+            if byte & 0b1000_0000 == 0 || prefix == 5 {
+                break;
+            }
+        }
+
+        // check the length of the packet before any following content is received
+        if length <= 0 || length > self.max_packet_length {
+            debug!(
+                length,
+                "packet length should be between 0 and {}", self.max_packet_length
+            );
+            return Err(passage_packets::Error::IllegalPacketLength.into());
+        }
+
+        let length = usize::try_from(length).expect("length is always positive");
+        Ok((prefix, (prefix + length).saturating_sub(self.read_buffer.len())))
+    }
+
     #[instrument(skip_all, fields(packet_length = field::Empty, packet_id = field::Empty))]
     async fn receive_packet(
         &mut self,
         keep_alive: bool,
     ) -> Result<(VarInt, Cursor<Vec<u8>>), Error> {
         // wait for the next packet, send keep-alive packets as necessary
-        let length = loop {
+        let prefix = loop {
+            // only ever read the bytes of the current frame, such that no bytes are lost on cancellation
+            let (prefix, missing) = self.next_frame()?;
+            if missing == 0 {
+                break prefix;
+            }
+
+            let mut frame_stream = (&mut self.stream).take(missing as u64);
             tokio::select! {
                 // use biased selection such that branches are checked in order
                 biased;
@@ -187,46 +231,32 @@ where
                     let packet = conf_out::KeepAlivePacket { id };
                     self.send_packet(packet).await?;
                 },
-                // await the next packet in, reading the packet size (expect fast execution)
-                maybe_length = self.stream.read_varint().instrument(tracing::info_span!("read_packet_length", otel.kind = "server")) => {
-                    break maybe_length?;
+                // await the next bytes of the packet (reading into the buffer is cancellation safe)
+                read = frame_stream.read_buf(&mut self.read_buffer).instrument(tracing::info_span!("read_packet_bytes", otel.kind = "server")) => {
+                    if read? == 0 {
+                        return Err(std::io::Error::from(ErrorKind::UnexpectedEof).into());
+                    }
                 },
             }
         };
 
-        // check the length of the packet for any following content
-        if length <= 0 || length > self.max_packet_length {
-            debug!(
-                length,
-                "packet length should be between 0 and {}", self.max_packet_length
-            );
-            return Err(passage_packets::Error::IllegalPacketLength.into());
-        }
+        // take the complete frame (without the length prefix) out of the buffer
+        let frame = self.read_buffer.split_off(prefix);
+        self.read_buffer.clear();
 
         // track metrics
-        let packet_size = u64::try_from(length).expect("length is always positive");
+        let packet_size = u64::try_from(frame.len()).expect("usize always fits into u64");
         metrics::packet_size::record_serverbound(packet_size);
         tracing::Span::current().record("packet_length", packet_size);
 
         // extract the encoded packet id
-        let id = self
-            .stream
-            .read_varint()
-            .instrument(tracing::info_span!("read_packet_id", otel.kind = "server"))
-            .await?;
+        let mut buf = Cursor::new(frame);
+        let id = buf.read_varint().await?;
         tracing::Span::current().record("packet_id", id);
 
-        // split a separate reader from the stream and read packet bytes (advancing stream)
-        let mut buffer = vec![];
-        (&mut self.stream)
-            .take(length as u64 - 1)
-            .read_to_end(&mut buffer)
-            .instrument(tracing::info_span!(
-                "read_packet_bytes",
-                otel.kind = "server"
-            ))
-            .await?;
-        let buf = Cursor::new(buffer);
+        // keep only the packet bytes
+        let position = usize::try_from(buf.position()).expect("position is inside the frame");
+        let buf = Cursor::new(buf.into_inner().split_off(position));
 
         Ok((id, buf))
     }
@@ -248,11 +278,22 @@ where
         final_buffer.write_varint(packet_len as VarInt).await?;
         final_buffer.extend_from_slice(&self.buffer);
 
-        // send the final buffer into the stream
-        self.stream
-            .write_all(&final_buffer)
-            .instrument(tracing::info_span!("write_packet", otel.kind = "server"))
-            .await?;
+        // queue the final buffer and send all pending bytes into the stream (the pending bytes are
+        // tracked outside the future, so a cancelled send is completed by the next one)
+        self.write_buffer.extend_from_slice(&final_buffer);
+        while self.write_offset < self.write_buffer.len() {
+            let written = self
+                .stream
+                .write(&self.write_buffer[self.write_offset..])
+                .instrument(tracing::info_span!("write_packet", otel.kind = "server"))
+                .await?;
+            if written == 0 {
+                return Err(std::io::Error::from(ErrorKind::WriteZero).into());
+            }
+            self.write_offset += written;
+        }
+        self.write_buffer.clear();
+        self.write_offset = 0;
 
         // track metrics
         let packet_size = u64::try_from(final_buffer.len()).expect("usize always fits into u64");
